@@ -8,7 +8,7 @@ for d in seeded/$glob/; do
   n=$(basename $d); prop=$(python3 -c "import json;print(json.load(open('$d/meta.json'))['property'])")
   wt=/tmp/regress-$n
   git -C /repo worktree add -q --detach $wt HEAD 2>/dev/null || { echo "$n: cannot create worktree"; continue; }
-  if ! git -C $wt apply $PWD/$d/patch.diff 2>/dev/null; then echo "$n ($prop): PATCH-DOES-NOT-APPLY"; git -C /repo worktree remove --force $wt; continue; fi
+  if ! git -C $wt apply $PWD/$d/patch.diff 2>/dev/null && ! git -C $wt apply --3way $PWD/$d/patch.diff 2>/dev/null; then echo "$n ($prop): PATCH-NO-LONGER-APPLIES (the code it changed was altered by a later fix: commit)"; git -C /repo worktree remove --force $wt; continue; fi
   res=MISSED; seeds=""
   for s in 1 2 3; do
     out=$(VERIF_SEED=$s VERIF_REPO=$wt ./check $prop 2>&1); code=$?
